@@ -23,6 +23,8 @@ def config(name):
         return cc.consts_of(**base, PNu=4, Numeric=False, MaxLen=7, MaxAnc=4, AddPairs=PAIRS3, TmplLoss=False, MaxHer=(0, 1, 1), MaxAdds=3)
     if name == "A1_wide":            # a 5-line sub-circuit with three heralds added across the ancilla of an earlier 3-line one
         return cc.consts_of(**base, PNu=4, TNu=(5, 3), Numeric=False, MaxLen=8, MaxAnc=4, AddPairs=PAIRS2, TmplLoss=False, MaxHer=(0, 3, 1), MaxAdds=2)
+    if name == "A1_ublock":          # sub-circuits holding a 3-line unitary block, added across the ancilla of an earlier addition
+        return cc.consts_of(**base, PNu=4, TNu=(3, 3), TmplU=True, Numeric=False, MaxLen=7, MaxAnc=4, AddPairs=PAIRS3, TmplLoss=False, MaxHer=(0, 1, 1), MaxAdds=3)
     if name == "A1_struct_q":        # quick rungs of the two structural scopes
         return cc.consts_of(**base, PNu=3, Numeric=False, MaxLen=5, MaxAnc=4, AddPairs=PAIRS2, TmplLoss=True, MaxHer=(0, 2, 1), MaxAdds=2)
     if name == "A1_nested_q":
@@ -67,6 +69,8 @@ def run(tier):
                      nontrivial_fn=onto_ancilla)
     cc.sim_phase(chk, PID, "A1_wide", config("A1_wide"), MINE, 12000 if th else 2000, 9,
                  {"scenario": "tmpl", "numeric": False, "pnu": 4, "tnu": (5, 3), "tmpl_loss": False}, nontrivial_fn=onto_ancilla)
+    cc.sim_phase(chk, PID, "A1_ublock", config("A1_ublock"), MINE, 9000 if th else 1500, 9,
+                 {"scenario": "tmpl", "numeric": False, "pnu": 4, "tnu": (3, 3), "tmpl_loss": "u"}, nontrivial_fn=onto_ancilla)
     cc.script_phase(chk, PID, "findings", cc.load_corpus(PID), MINE)
     cc.repo_tests_phase(chk, PID, MINE, ["tests/sdk/circuit_test.py"] + (["tests/qubit", "tests/interferometers", "tests/sdk/display_test.py", "tests/tomography"] if th else []))
     cc.trace_phase(chk, PID, "wiring_ring", 2400 if th else 400, "wiring", MINE, numeric=True)
